@@ -1156,16 +1156,21 @@ impl StorageEngine {
                 Value::List(list) => {
                     let len = list.len() as isize;
                     
-                    let start = if start < 0 { (len + start).max(0) } else { start } as usize;
-                    let stop = if stop < 0 { (len + stop).max(0) } else { stop } as usize;
+                    // Redis index normalisation: a stop that is still negative after adding
+                    // the length selects nothing (it must not be clamped to the first element)
+                    let start = if start < 0 { (len + start).max(0) } else { start };
+                    let stop = if stop < 0 { len + stop } else { stop };
                     
                     let mut result = Vec::new();
-                    for (i, item) in list.iter().enumerate() {
-                        if i >= start && i <= stop {
-                            result.push(item.clone());
-                        }
-                        if i > stop {
-                            break;
+                    if start <= stop {
+                        let (start, stop) = (start as usize, stop as usize);
+                        for (i, item) in list.iter().enumerate() {
+                            if i >= start && i <= stop {
+                                result.push(item.clone());
+                            }
+                            if i > stop {
+                                break;
+                            }
                         }
                     }
                     result
@@ -1239,13 +1244,17 @@ impl StorageEngine {
                 Value::List(list) => {
                     let len = list.len() as isize;
                     
-                    let start = if start < 0 { (len + start).max(0) } else { start } as usize;
-                    let stop = if stop < 0 { (len + stop).max(0) } else { stop } as usize;
+                    // Same normalisation as LRANGE: a stop below -len keeps nothing
+                    let start = if start < 0 { (len + start).max(0) } else { start };
+                    let stop = if stop < 0 { len + stop } else { stop };
                     
                     let mut new_list = VecDeque::new();
-                    for (i, item) in list.iter().enumerate() {
-                        if i >= start && i <= stop {
-                            new_list.push_back(item.clone());
+                    if start <= stop {
+                        let (start, stop) = (start as usize, stop as usize);
+                        for (i, item) in list.iter().enumerate() {
+                            if i >= start && i <= stop {
+                                new_list.push_back(item.clone());
+                            }
                         }
                     }
                     
